@@ -206,7 +206,7 @@ func verifC12Sequence() {
 	muxClosed := false
 	staleWrite := false // a write went through a handle whose connection had been removed from the mux
 	nOps := 3 + verifTier()
-	nAddrs := 3 + verifTier() // quick: two IPv4 + the IPv4-mapped form; thorough: + one IPv6
+	nAddrs := 3 // two IPv4 addresses + the IPv4-mapped form of the first (IPv6 peers: verifC12DualStack)
 
 	find := func(c *udpMuxedConn) *verifRefConn {
 		for _, r := range conns {
